@@ -27,7 +27,7 @@ def run(res, tier, a, prop):
         if want_loc:
             groups.append(("samlang-ast", LOC))
         with concurrent.futures.ThreadPoolExecutor(max_workers=len(groups)) as ex:
-            futs = {ex.submit(kani.run_harnesses, sc, crate, g, per_cap * len(g), 12, (), "kani%d" % i): (crate, g) for i, (crate, g) in enumerate(groups)}
+            futs = {ex.submit(kani.run_harnesses, sc, crate, g, per_cap * len(g), 12, ("-Z", "stubbing"), "kani%d" % i): (crate, g) for i, (crate, g) in enumerate(groups)}
             for f in concurrent.futures.as_completed(futs):
                 try:
                     r, out = f.result()
@@ -49,6 +49,7 @@ def run(res, tier, a, prop):
     })
     res.assumptions += [
         "Kani 0.68 / CBMC 6.11 translation of the compiled crate",
+        "environment stub: String::from_utf8_lossy returns an empty string in the two comment-scanner harnesses (the comment text is not checked)",
         "ASCII input only (bytes < 128); multi-byte characters are outside the bound",
         "the logos-generated DFA, keyword/operator recognition, the parser and every consumer of locations are outside the claim",
     ]
